@@ -3,10 +3,10 @@ from vcore import Case
 from dlib import Q, Par, LEVELS, ALL, flat
 
 RULE = ("zero polynomial/vector with a single coefficient set to +-(b-1), +-b, +-(b+1), +-6283009 at enumerated positions "
-        "(quick: 24 positions per polynomial incl. 0 and 255, every polynomial of the vector; thorough: every one of the 256 positions) for every "
+        "(quick: 24 positions per polynomial incl. 0 and 255, every polynomial of the vector; thorough: every one of the 256 positions for poly::chknorm, every 8th position and 255 of every polynomial for the vector functions) for every "
         "bound used by the six parameter sets and the boundary bounds 0, 1, (q-1)/8, (q-1)/8+1, 2^31-1; plus random reduced vectors. "
         "Non-trivial = single-coefficient boundary case; distinct (fn,copy,input).")
-ASSUMPTIONS = ["positions are enumerated (all 256 x (k or l) in the thorough tier); coefficient values at the decision boundaries"]
+ASSUMPTIONS = ["positions are enumerated (all 256 for chknorm, a stride for the vector copies in the thorough tier); coefficient values at the decision boundaries"]
 TIMEOUT = {"quick": 300, "thorough": 2400}
 RMAX = 6283009
 QM8 = (Q - 1) // 8
@@ -37,7 +37,7 @@ def gen(tier, rng):
             p = Par(lv)
             for fn, n in (("l_chknorm", p.L), ("k_chknorm", p.K)):
                 for j in range(n):
-                    for i in (pos if tier == "thorough" else [0, 255, pos[len(pos) // 2]]):
+                    for i in (pos[::8] + [255] if tier == "thorough" else [0, 255, pos[len(pos) // 2]]):
                         for v in (b - 1, b):
                             if not 0 <= v <= RMAX:
                                 continue
